@@ -33,10 +33,12 @@ def jobs_diags(tier):
     npr(1, 2, 3, 1, 2, 1, 1)
     npr(1, 2, 3, 2, 4, 3, 2)
     npr(1, 3, 2, 1, 1, 1, 2)
+    npr(1, 3, 2, 1, 1, 5, 2)   # continuation lines shorter than the minimum column (deeply indented multi-line value)
+    npr(1, 2, 1, 1, 2, 4, 1)
     if tier != "quick":
         for line in (1, 2, 3):
             for col in (1, 2, 3, 4):
-                for mincol in (1, 3):
+                for mincol in (1, 3, 6):
                     for vlen in (1, 2, 3):
                         npr(1, 3, 3, line, col, mincol, vlen)
                         if col - 1 + vlen <= 3:
